@@ -74,6 +74,10 @@ pub fn main(args: &[String]) {
                             unguarded_per_mille: 0,
                             ..Default::default()
                         };
+                        if let Ok(off) = std::env::var("VC_OFF") {
+                            let v: Vec<&str> = off.split(',').collect();
+                            c01::apply_off(&mut cfg, &v);
+                        }
                         if small {
                             cfg.max_width = 12;
                             cfg.max_items = 2;
@@ -84,7 +88,7 @@ pub fn main(args: &[String]) {
                             cfg.functions = false;
                         }
                         let stats = c01::Stats::default();
-                        c01::one_case(&mut d, &cfg, 24, &stats)
+                        c01::one_case(&mut d, &cfg, 24, &stats, true)
                     })
                     .unwrap()
                     .join();
@@ -121,6 +125,34 @@ pub fn main(args: &[String]) {
                 println!("  FAIL {v:4} {k}");
             }
         }
-        _ => eprintln!("usage: vc-sv DEV dump N DIR [SEED] | run N [SEED] [-v]"),
+        "file" => {
+            // DEV file N F.veryl [clock_type] [reset_type] [-q]
+            let path = args.get(2).cloned().unwrap_or_default();
+            let ct = args.get(3).cloned().unwrap_or_else(|| "posedge".into());
+            let rt = args.get(4).cloned().unwrap_or_else(|| "async_low".into());
+            let text = std::fs::read_to_string(&path).unwrap();
+            let combo = c01::combo_from(&text, &ct, &rt);
+            match c01::run_text(&text, &combo, n, 12345) {
+                Err(e) => println!("{e}"),
+                Ok(r) => {
+                    if !args.iter().any(|a| a == "-q") {
+                        println!("{}", r.sv);
+                    }
+                    if let Some(w) = &r.scalar_select {
+                        println!("note: {w}");
+                    }
+                    for (i, (row, v)) in r.sv_rows.iter().zip(&r.veryl.steps).enumerate() {
+                        let ins: Vec<String> = r.stim.inputs.iter().zip(&r.stim.steps[i].values).map(|(p, v)| format!("{}={:x}", p.name, v)).collect();
+                        println!("step {i} {}", ins.join(" "));
+                        for (k, o) in r.stim.outputs.iter().enumerate() {
+                            let vb = vsv::Bv::from_biguint(&v[k].value, o.width, false);
+                            let same = row[k].bits() == vb.bits();
+                            println!("   {:8} sv {}   veryl {}'h{:x} {}", o.name, row[k], o.width, v[k].value, if same { "" } else { "  <<<< differs" });
+                        }
+                    }
+                }
+            }
+        }
+        _ => eprintln!("usage: vc-sv DEV dump N DIR [SEED] | run N [SEED] [-v] | file F.veryl N [clock_type] [reset_type]"),
     }
 }
